@@ -1,0 +1,14 @@
+//go:build verif
+
+package funcfile
+
+// Contracts for govc (see /verif/DESIGN.md, C08 / C10). Comment-only file.
+
+//@ func createAndAddFunc
+//@   requires compiler != nil
+//@ func LoadDefinitions
+//@   requires compiler != nil && r != nil
+//@ func LoadDefinitionsFile
+//@   requires compiler != nil
+//@ func keyBuilderToFunction
+//@   requires stage != nil
